@@ -4,8 +4,8 @@ import CashewsVerif.Model.TxSched
 
   case <nkeys>                     -> ok            (forget everything)
   init <k> <v>                     -> ok
-  task <tx|plain> <fast|locked|serializable> <timeout u> <ctx|dec> <op>*   -> ok
-        op = set:k:v | incr:k:n | get:k | del:k | expire:k | setx:k:v:0|1 | sleep:d | raise | raise:base | raise:falsy | raise:falsybase | nin:ctx | nin:dec | nout
+  task <tx|plain> <fast|locked|serializable> <timeout u> <ctx|dec|obj> <op>*   -> ok
+        op = set:k:v | incr:k:n | get:k | del:k | expire:k | setx:k:v:0|1 | sleep:d | raise | raise:base | raise:falsy | raise:falsybase | nin:ctx | nin:dec | nin:obj | nout | nfail[:base|:falsy|:falsybase] (inner block left by an exception the outer body catches)
            | commit | rollback      (explicit `tx.commit()` / `tx.rollback()` inside the body)
   run <tid>                        -> label=<command the task was parked before> store=… locks=… now=…
   adv <u>                          -> store=… locks=… now=…
@@ -24,7 +24,7 @@ def parseMode? : String → Option Mode
   | "fast" => some .fast | "locked" => some .locked | "serializable" => some .serializable | _ => none
 
 def parseForm? : String → Option Form
-  | "ctx" => some .ctx | "dec" => some .dec | _ => none
+  | "ctx" => some .ctx | "dec" => some .dec | "obj" => some .obj | _ => none
 
 def parseCmd? (s : String) : Option Cmd :=
   match s.splitOn ":" with
@@ -43,7 +43,11 @@ def parseCmd? (s : String) : Option Cmd :=
   | ["commit"] => some .commit
   | ["rollback"] => some .rollback
   | ["nin", f] => do pure (.nestIn (← parseForm? f))
-  | ["nout"] => some .nestOut
+  | ["nout"] => some (.nestOut none)
+  | ["nfail"] => some (.nestOut (some ⟨false, false⟩))          -- the inner block is left by an exception caught right outside it
+  | ["nfail", "base"] => some (.nestOut (some ⟨true, false⟩))
+  | ["nfail", "falsy"] => some (.nestOut (some ⟨false, true⟩))
+  | ["nfail", "falsybase"] => some (.nestOut (some ⟨true, true⟩))
   | _ => none
 
 def insSorted (x : Nat) : List Nat → List Nat
